@@ -282,7 +282,14 @@ func (sc *C03Scenario) Execute(t *testing.T) *core.Outcome {
 			case "subreplay":
 				// a resumable subscription to an active type: replays what is stored, then saves its
 				// position on every live delivery while other tasks load and save positions
-				typ(op.T).SubReplay(w, ctx, fmt.Sprintf("sub-%d", op.N%2), func(int) { simrt.Yield(siteHandler) })
+				// (its handler re-enters the bus like any other handler: it publishes a leaf event, which on this
+				// persistent bus goes through the store lock)
+				typ(op.T).SubReplay(w, ctx, fmt.Sprintf("sub-%d", op.N%2), func(int) {
+					simrt.Yield(siteHandler)
+					if !simrt.Dying() && op.T != 2 && op.Fn%2 == 0 {
+						reenter(C03Op{Kind: "pub", N: op.N})
+					}
+				})
 			case "save-offset":
 				store.SaveOffset(ctx, fmt.Sprintf("sub-%d", op.N%2), eventbus.Offset(fmt.Sprintf("%020d", op.Fn+1)))
 			case "load-offset":
